@@ -19,7 +19,7 @@ import (
 // C17: stream seeder.  One case = one history against a real BaseSeeder (reader goroutine +
 // sender workers):
 //
-//   <threads> <pendLimit> <cfgMaxNum> <cfgMaxSize> <cfgMaxChunks> <nitems> (<key> <size> <mem>)*
+//   <threads>[:<MaxSenderTasks>] <pendLimit> <cfgMaxNum> <cfgMaxSize> <cfgMaxChunks> <nitems> (<key> <size> <mem>)*
 //   ; r <peer> <sid> <start> <stop> <maxNum> <maxSize> <maxChunks>     NotifyRequestReceived
 //   ; u <peer>                                                         UnregisterPeer
 //   ; h                                                                hold: block every SendChunk
@@ -198,6 +198,12 @@ func c17Run(input []string) []string {
 		panic("bad header")
 	}
 	atoi := func(s string) uint64 { n, _ := strconv.ParseUint(s, 10, 64); return n }
+	maxTasks := 128
+	if i := strings.IndexByte(header[0], ':'); i >= 0 {
+		maxTasks = int(atoi(header[0][i+1:]))
+		header = append([]string{header[0][:i]}, header[1:]...)
+	}
+	small := maxTasks < 128
 	threads := int(atoi(header[0]))
 	limit := int64(atoi(header[1]))
 	nitems := int(atoi(header[5]))
@@ -219,7 +225,7 @@ func c17Run(input []string) []string {
 				if !held {
 					held, n = true, 0
 				}
-			case "f", "u":
+			case "f":
 				held, n = false, 0
 			case "r":
 				if held {
@@ -233,7 +239,7 @@ func c17Run(input []string) []string {
 	}
 	w.s = basestreamseeder.New(basestreamseeder.Config{
 		SenderThreads:           threads,
-		MaxSenderTasks:          128,
+		MaxSenderTasks:          maxTasks,
 		MaxPendingResponsesSize: limit,
 		MaxResponsePayloadNum:   uint32(atoi(header[2])),
 		MaxResponsePayloadSize:  atoi(header[3]),
@@ -330,7 +336,16 @@ func c17Run(input []string) []string {
 			w.mu.Lock()
 			held := w.held
 			w.mu.Unlock()
-			if held {
+			if held && small {
+				// the reader may be blocked in Enqueue (task channel full), which cannot be
+				// observed: wait a bounded time and sample the pending size for the bound only
+				deadline := time.Now().Add(3 * time.Millisecond)
+				c17Spin("held-small", func() bool {
+					return w.pingsSeen() == expectedPings || pending() >= limit || time.Now().After(deadline)
+				})
+				obs = append(obs, "p"+strconv.FormatInt(pending(), 10))
+				vu.Stat("held_small_maxtasks")
+			} else if held {
 				stuck := false
 				c17Spin("held", func() bool {
 					if w.pingsSeen() == expectedPings {
@@ -350,7 +365,15 @@ func c17Run(input []string) []string {
 				quiesce()
 			}
 		case "u":
-			flush()
+			w.mu.Lock()
+			held := w.held
+			w.mu.Unlock()
+			if held && !small && w.pingsSeen() == expectedPings {
+				// reader idle: unregister while the responses stay blocked in the sender queues
+				vu.Stat("unregister_while_held")
+			} else {
+				flush()
+			}
 			_ = w.s.UnregisterPeer(op[1])
 			c17Spin("unregister", func() bool { return w.s.VerifPendingUnregisters() == 0 })
 		case "h":
@@ -430,7 +453,11 @@ func c17GenOne(r *rand.Rand, emit func(...string)) {
 		cfgChunks = 1 + r.Intn(3)
 	}
 	nitems := r.Intn(13)
-	in := []string{strconv.Itoa(threads), strconv.Itoa(limit), strconv.Itoa(cfgNum), strconv.Itoa(cfgSize), strconv.Itoa(cfgChunks), strconv.Itoa(nitems)}
+	thr := strconv.Itoa(threads)
+	if r.Intn(6) == 0 {
+		thr += ":" + strconv.Itoa(r.Intn(3)) // MaxSenderTasks 0, 1 or 2: Enqueue blocks
+	}
+	in := []string{thr, strconv.Itoa(limit), strconv.Itoa(cfgNum), strconv.Itoa(cfgSize), strconv.Itoa(cfgChunks), strconv.Itoa(nitems)}
 	key := uint64(r.Intn(3))
 	maxKey := key
 	for i := 0; i < nitems; i++ {
@@ -484,7 +511,6 @@ func c17GenOne(r *rand.Rand, emit func(...string)) {
 			}
 		case x < 86:
 			in = append(in, ";", "u", strconv.Itoa(1+r.Intn(npeers)))
-			held = false
 		case x < 94:
 			if !held {
 				in = append(in, ";", "h")
